@@ -43,6 +43,20 @@ def run(cx, tier='quick'):
     rep.floor('ATTRS-READ', 60)
     rep.not_decided += []
     rep.assumptions += ['the three couplings Copy/Clone, Eq/PartialEq, PartialOrd/Ord are the documented ones']
+    # the type-level registration must visit every meta of every #[educe(..)] attribute: a loop that is left early makes one
+    # trait's presence depend on another's (MERGE rule of C14)
+    from .c14 import check_merge as _check_merge
+    from ..facts import Facts as _F2
+    from ..report import Report as _R2
+    sub = _R2('C15')
+    _check_merge(cx, _F2(cx), sub)
+    for fnd in sub.findings:
+        if fnd.rule == 'MERGE' and not any(x.key == fnd.key for x in rep.findings):
+            rep.findings.append(fnd)
+    for r_, i_, v_ in sub.checked:
+        if r_ == 'MERGE':
+            rep.checked.append((r_, i_, v_))
+            rep.counts[r_] = rep.counts.get(r_, 0) + 1
     return rep
 
 
